@@ -20,6 +20,18 @@ def hb_cfg(mode, dims='D23', fixed=True, invs=(), maxb=12, pl=3, ps=3):
           + ''.join(f'INVARIANT {i}\n' for i in invs))
 
 
+def ckpt_cfg(backend, fixed, steps='{1, 2, 3, 4}', saves=3, crashes=1, keeps='{1, 2}', everys='{0, 2}', hist=False,
+             export=False):
+  t = ('CONSTANTS\n  Steps = %s\n  MaxSaves = %d\n  MaxCrashes = %d\n  Backend = "%s"\n  Keeps = %s\n  Everys = %s\n'
+       '  FixedListing = %s\n  Hist = %s\nSPECIFICATION Spec\n' % (steps, saves, crashes, backend, keeps, everys,
+                                                                    'TRUE' if fixed else 'FALSE', 'TRUE' if hist else 'FALSE'))
+  for inv in ('TypeOK', 'FinalNamesComplete', 'RetentionExact', 'NoCollateralLoss', 'LatestSurvives', 'LegacyRejectsOld'):
+    t += f'INVARIANT {inv}\n'
+  if export:
+    t += 'INVARIANT Export\n'
+  return t
+
+
 def warm_quick():
   """(module, cfg, kwargs) of the TLC runs the quick tier needs; used by pylib/setup.py to warm the cache."""
   runs = [
@@ -37,4 +49,6 @@ def warm_quick():
     runs.append(('HostBatch', hb_cfg('scan', dims=dims, invs=['ScanOK', 'Export']), dict(workers=1)))
   runs.append(('HostBatch', hb_cfg('prefetch', invs=['PfInOrder', 'PfBuffer', 'PfComplete', 'PfErrorAfterItems', 'Export'], pl=3),
                dict(workers=1)))
+  for backend in ('legacy', 'orbax'):
+    runs.append(('Checkpoint', ckpt_cfg(backend, True), dict(workers=16)))
   return runs
